@@ -130,8 +130,18 @@ func c18Invariants(l *verifhook.Layout, t *verifhook.TypeDesc, ptr int) string {
 		if es > m {
 			m = es
 		}
-		if m+1 > size {
-			return fmt.Sprintf("result %s: discriminant after the %d-byte union lies outside SizeOf = %d", c18Show(t), m, size)
+		// the emitters place the discriminant after the payload union padded to the larger of
+		// the two payload alignments (qbe resultTagOffset)
+		ua := l.AlignOf(t.Elem)
+		if ea := l.AlignOf(t.Err); ea > ua {
+			ua = ea
+		}
+		if ua < 1 {
+			ua = 1
+		}
+		tagOff := (m + ua - 1) / ua * ua
+		if tagOff+1 > size {
+			return fmt.Sprintf("result %s: discriminant at offset %d (after the %d-byte union padded to %d) lies outside SizeOf = %d", c18Show(t), tagOff, m, ua, size)
 		}
 		if align < l.AlignOf(t.Elem) || align < l.AlignOf(t.Err) {
 			return fmt.Sprintf("result %s: alignment %d smaller than a payload alignment", c18Show(t), align)
@@ -180,6 +190,7 @@ type c18T struct {
 	name   string // int type name / struct name
 	bits   int
 	signed bool
+	isBool bool
 	fields []c18F
 	n      int
 	elem   *c18T
@@ -202,6 +213,10 @@ func (g *c18Gen) intT() *c18T {
 	n := len(ts)
 	if g.wasm {
 		n = 8
+	}
+	if g.rng.IntN(6) == 0 {
+		// a one-byte bool between wider neighbours: a store wider than the slot is visible
+		return &c18T{kind: "int", name: "bool", bits: 8, isBool: true}
 	}
 	t := ts[g.rng.IntN(n)]
 	return &t
@@ -259,6 +274,9 @@ func c18Leaves(prefix string, t *c18T, out *[]c18Leaf) {
 
 // sentinel: a distinct value per leaf that fills the whole width of the leaf type.
 func c18Sentinel(t *c18T, k int) *big.Int {
+	if t.isBool {
+		return big.NewInt(int64(k % 2))
+	}
 	v := new(big.Int)
 	pat := byte(0x11 + (k*7)%0xdd)
 	for i := 0; i < t.bits/8; i++ {
@@ -271,10 +289,21 @@ func c18Sentinel(t *c18T, k int) *big.Int {
 	return v
 }
 
+// c18Fmt renders a leaf value as a literal / as printed.
+func c18Fmt(t *c18T, v *big.Int) string {
+	if t.isBool {
+		if v.Sign() != 0 {
+			return "true"
+		}
+		return "false"
+	}
+	return v.String()
+}
+
 func c18Lit(t *c18T, vals map[string]*big.Int, prefix string) string {
 	switch t.kind {
 	case "int":
-		return vals[prefix].String()
+		return c18Fmt(t, vals[prefix])
 	case "struct":
 		var fs []string
 		for _, f := range t.fields {
@@ -321,7 +350,7 @@ func c18Program(rng *rand.Rand, wasm bool) (string, []string) {
 		for _, lf := range leaves {
 			pn++
 			fmt.Fprintf(&sb, "    let p%d: %s = %s%s;\n    io::Println(p%d);\n", pn, lf.t, v, lf.path, pn)
-			exp = append(exp, cur[lf.path].String())
+			exp = append(exp, c18Fmt(lf.t, cur[lf.path]))
 		}
 	}
 	canaries := func() {
@@ -330,7 +359,7 @@ func c18Program(rng *rand.Rand, wasm bool) (string, []string) {
 	}
 	// by-value function returning one leaf after overwriting it in its copy
 	fl := leaves[rng.IntN(len(leaves))]
-	fmt.Fprintf(&sb, "\nfn poke(p: %s) -> %s {\n    p%s = %s;\n    return p%s;\n}\n", root, fl.t, fl.path, c18Sentinel(fl.t, 200), fl.path)
+	fmt.Fprintf(&sb, "\nfn poke(p: %s) -> %s {\n    p%s = %s;\n    return p%s;\n}\n", root, fl.t, fl.path, c18Fmt(fl.t, c18Sentinel(fl.t, 200)), fl.path)
 	sb.WriteString("\nfn main() {\n    let c0: i64 = 1229782938247303441;\n")
 	fmt.Fprintf(&sb, "    let v: %s = %s;\n", root, c18Lit(root, vals, ""))
 	sb.WriteString("    let c1: i64 = 2459565876494606882;\n")
@@ -345,7 +374,7 @@ func c18Program(rng *rand.Rand, wasm bool) (string, []string) {
 	for s := 0; s < 1+rng.IntN(3); s++ {
 		lf := leaves[rng.IntN(len(leaves))]
 		nv := c18Sentinel(lf.t, 100+s*13)
-		fmt.Fprintf(&sb, "    v%s = %s;\n", lf.path, nv)
+		fmt.Fprintf(&sb, "    v%s = %s;\n", lf.path, c18Fmt(lf.t, nv))
 		cur[lf.path] = nv
 		dump("v", cur)
 	}
@@ -357,13 +386,13 @@ func c18Program(rng *rand.Rand, wasm bool) (string, []string) {
 	}
 	lf := leaves[rng.IntN(len(leaves))]
 	nv := c18Sentinel(lf.t, 150)
-	fmt.Fprintf(&sb, "    w%s = %s;\n", lf.path, nv)
+	fmt.Fprintf(&sb, "    w%s = %s;\n", lf.path, c18Fmt(lf.t, nv))
 	cp[lf.path] = nv
 	dump("w", cp)
 	dump("v", cur)
 	// by-value call
 	fmt.Fprintf(&sb, "    let r: %s = poke(v);\n    io::Println(r);\n", fl.t)
-	exp = append(exp, c18Sentinel(fl.t, 200).String())
+	exp = append(exp, c18Fmt(fl.t, c18Sentinel(fl.t, 200)))
 	dump("v", cur)
 	if !wasm && root.kind == "struct" { // optionals (the wasm back end has none; `[N]T?` binds the ? to the element type): some / none with a default of the same type
 		fmt.Fprintf(&sb, "    let o: %s? = v;\n    let n: %s? = none;\n    let u := o ?? w;\n    let x := n ?? w;\n", root, root)
